@@ -122,7 +122,7 @@ def ocean_floor(
     # The bounds of the depth coordinates describe the depth axis itself.
     # They are not data to reduce and are removed along with the depth dimension.
     depth_bounds_names = {
-        utils.name_to_data_array(dataset, coordinate).attrs.get('bounds')
+        utils.get_bounds_name(utils.name_to_data_array(dataset, coordinate))
         for coordinate in depth_coordinates
     }
 
@@ -304,7 +304,7 @@ def normalize_depth_variables(
                 new_variable = new_dataset[name]
 
             try:
-                bounds_name = new_variable.attrs['bounds']
+                bounds_name = utils.get_bounds_name(new_variable)
                 bounds_variable = new_dataset[bounds_name]
             except KeyError:
                 pass
